@@ -203,7 +203,7 @@ def r2(ctx, F, rule, sfx):
     roles = finalize_roles(ctx, F, fb)
     a = e.args
     r = resolve_item(e.fargs[0], nx.result, sh)
-    ctx.check(rule, 'receiver-is-slot-cell' + sfx, r is not None and r[0] == ('elem', 'self.voronoi_cells') and not r[1], repr(e.fargs[0])[-80:], 'the cell at the current slot', w, key_extra='receiver')
+    ctx.check(rule, 'receiver-is-slot-cell' + sfx, r is not None and r[0][0] == 'elem' and r[0][1] in cell_containers(L) and not r[1], repr(e.fargs[0])[-80:], 'the cell at the current slot', w, key_extra='receiver')
     if 'face_connections_offset' not in roles or 'face_count' not in roles:
         ctx.bad(rule, 'finalisation-stores-offset-and-count' + sfx, 'roles %s' % roles, 'offset and count arguments stored in their fields', where(fb), key_extra='roles')
         return
@@ -243,6 +243,20 @@ def r2(ctx, F, rule, sfx):
     ctx.evaluations += 1
 
 
+def cell_containers(L):
+    """Names under which the loop `L` sees self.voronoi_cells: the field itself, or the symbol standing for it inside a
+    loop that updates its elements in place (`self.voronoi_cells[i].finalize(..)`)."""
+    out = {'self.voronoi_cells'}
+    pairs = [(x['init'], x['phi']) for x in L.get('ext', ())] + [(a, p) for a, p in zip(L['init'], L['phi']) if a is not None and p is not None and a is not p]
+    for a, p in pairs:
+        try:
+            if repr(I.get_field(I.frozen(a), 'voronoi_cells')) == 'self.voronoi_cells':
+                out.add(repr(I.get_field(I.frozen(p), 'voronoi_cells')))
+        except (AnalysisIncomplete, KeyError, TypeError):
+            continue
+    return out
+
+
 def finalize_roles(ctx, F, fb):
     """Evaluate VoronoiCell::finalize symbolically: which argument lands in which field."""
     ip = I.Interp(F)
@@ -275,7 +289,7 @@ def r3(ctx, F, rule, sfx):
         return
     r = resolve_item(e.fargs[roles['idx']], nx.result, sh)
     rc = resolve_item(e.fargs[0], nx.result, sh)
-    ok = r is not None and r[0][0] == 'pos' and not r[1] and rc is not None and rc[0] == ('elem', 'self.voronoi_cells') and not rc[1]
+    ok = r is not None and r[0][0] == 'pos' and not r[1] and rc is not None and rc[0][0] == 'elem' and rc[0][1] in cell_containers(L) and not rc[1]
     ctx.check(rule, 'slot-index-stored' + sfx, ok, 'idx := %s' % repr(e.fargs[roles['idx']])[-80:], 'the slot position of the cell being finalised', where(b, e.line), key_extra='idx-source')
     extra = [g for g in e.guard if not (dtab.is_discr_eq(g) and '::next(' in repr(g))]
     ctx.check(rule, 'unconditional' + sfx, not extra, 'guards: %s' % [repr(g)[:80] for g in extra], 'executed for every cell', where(b, e.line), key_extra='guarded')
